@@ -169,6 +169,10 @@ def scenarios(family, tier, mode="th"):
         # object-pid table: waiter = delete
         add("empty", [C("store", "p1", "a", "none"), C("delete", "p1"),
                       C("store", "p2", "b", "none")], pb=2)
+        # a store whose tagging is rejected because a third caller bound the pid meanwhile, while
+        # the object it found is being removed (fix F12)
+        add("unref", [C("store", "p1", "a", "none"), C("dii", c="a", val="badsum"), C("tag", "p1", "a")], pb=2)
+        add("p1a", [C("delete", "p1"), C("tag", "p2", "a"), C("store", "p2", "a", "none")], pb=2)
         # reference-pid table: waiter = tag / delete
         add("empty", [C("tag", "p1", "a"), C("tag", "p1", "b"), C("tag", "p2", "b")], pb=2)
         add("empty", [C("tag", "p1", "a"), C("delete", "p1"), C("tag", "p2", "b")], pb=2)
